@@ -1510,4 +1510,91 @@ theorem step_lines (o : Opts) (pol : Pol) (m : Mach) (inp : Str) (hi : LInv m) (
       exact ⟨⟨hg', hs', he', fun hraw _ hx => c6 hraw hx, c1, c2, c4,
         by intro cr hc; rw [c3] at hc; simp at hc⟩, c5⟩
 
+
+/-! ### whole runs -/
+
+theorem brk_plain (f : Bool) (s : Str) (h : ∀ c ∈ s, isBrk c = false) : brk f s = 0 := by
+  induction s generalizing f with
+  | nil => rfl
+  | cons c t ih =>
+    rw [brk_cons_plain _ _ _ (h c (List.mem_cons_self ..))]
+    exact ih false (fun x hx => h x (List.mem_cons_of_mem _ hx))
+
+theorem runsTo_lines (o : Opts) (pol : Pol) {m : Mach} {inp : Str} {m' : Mach}
+    (hrun : RunsTo o pol m inp m') : LInv m → LInv m' ∧ Phi m' [] = Phi m inp := by
+  induction hrun with
+  | @susp m0 i0 m0' hs =>
+    intro hi
+    exact step_lines o pol m0 i0 hi m0' [] (by rw [hs]; rfl)
+  | @cont m0 i0 mx ix m0' hs _ ih =>
+    intro hi
+    obtain ⟨h1, h2⟩ := step_lines o pol m0 i0 hi mx ix (by rw [hs]; rfl)
+    obtain ⟨h3, h4⟩ := ih h1
+    exact ⟨h3, by rw [h4, h2]⟩
+  | @script m0 i0 mx ix m0' hs _ ih =>
+    intro hi
+    obtain ⟨h1, h2⟩ := step_lines o pol m0 i0 hi mx ix (by rw [hs]; rfl)
+    obtain ⟨h3, h4⟩ := ih h1
+    exact ⟨h3, by rw [h4, h2]⟩
+  | @indicator m0 i0 mx ix m0' hs _ ih =>
+    intro hi
+    obtain ⟨h1, h2⟩ := step_lines o pol m0 i0 hi mx ix (by rw [hs]; rfl)
+    obtain ⟨h3, h4⟩ := ih h1
+    exact ⟨h3, by rw [h4, h2]⟩
+
+/-- when the tokenizer has taken everything it was given, its line counter is the line it started
+on plus the number of line breaks in that text -/
+theorem runsTo_line (o : Opts) (pol : Pol) {m : Mach} {inp : Str} {m' : Mach}
+    (hrun : RunsTo o pol m inp m') (hi : LInv m) :
+    m'.line = m.line + brk m.ignoreLf (stash m ++ inp) := by
+  obtain ⟨h1, h2⟩ := runsTo_lines o pol hrun hi
+  have : Phi m' [] = m'.line := by
+    unfold Phi
+    rw [List.append_nil, brk_plain _ _ h1.stashOk]; rfl
+  rw [← this, h2]; rfl
+
+theorem Sim.line {m1 m2 : Mach} (h : Sim m1 m2) : m1.line = m2.line := by
+  rcases h with h | ⟨_, a, h⟩ <;> subst h <;> simp
+
+theorem session_line (o : Opts) (pol : Pol) {m : Mach} {cs : List Str} {mf : Mach}
+    (hs : Session o pol m cs mf) (hi : LInv m) (hne : cs ≠ []) :
+    mf.line = m.line + brk m.ignoreLf (stash m ++ cs.flatten) := by
+  rcases session_flatten o pol hs hi.good hi.notEof with ⟨h, _⟩ | ⟨mf', hr, hsim⟩
+  · exact absurd h hne
+  · rw [← hsim.line]; exact runsTo_line o pol hr hi
+
+/-- a machine that has not read anything yet satisfies the invariant -/
+theorem linv_fresh (m : Mach) (h1 : m.tempBuf = []) (h2 : m.reconsume = false) (h3 : m.charRef = none)
+    (h4 : m.atEof = false) (h5 : m.ignoreLf = false) : LInv m where
+  good := ⟨fun _ _ => h1, fun _ => h2, fun _ => h5⟩
+  safe := Safe.of_none h3
+  notEof := h4
+  nr := fun _ _ _ => h1
+  peekNoRecon := fun _ => h2
+  ri := by intro hx; rw [h2] at hx; simp at hx
+  stashOk := by rw [stash_nil_of h3 (fun _ => h1)]; intro c hc; exact absurd hc List.not_mem_nil
+  cr := by intro cr hc; rw [h3] at hc; simp at hc
+
+/-! ### `brk` is the number of LF after the standard's newline normalisation -/
+
+/-- CRLF → LF, lone CR → LF (`f`: the previous character was a CR) -/
+def normNl : Bool → Str → Str
+  | _, [] => []
+  | f, c :: s =>
+    if c = '\r' then '\n' :: normNl true s
+    else if c = '\n' then (if f then normNl false s else '\n' :: normNl false s)
+    else c :: normNl false s
+
+theorem brk_eq_count (f : Bool) (s : Str) : brk f s = (normNl f s).count '\n' := by
+  induction s generalizing f with
+  | nil => rfl
+  | cons c t ih =>
+    by_cases h1 : c = '\r'
+    · subst h1; simp [brk, normNl, ih]; omega
+    · by_cases h2 : c = '\n'
+      · subst h2
+        cases f <;> simp [brk, normNl, ih] <;> omega
+      · have : ('\n' == c) = false := by simp; exact fun h => h2 h.symm
+        simp [brk, normNl, h1, h2, ih, List.count_cons, this]
+
 end H5V.Model.HtmlTok
